@@ -93,8 +93,9 @@ def _legal(prog):
     for i, (b, l) in enumerate(prog):
         if l is None or b % 2 or b < 0:
             return False
-        if b == 0 and i > 0:
-            return False                  # instructions are at least one code unit apart
+        if b == 0 and i > 0 and l == 0:
+            return False                  # instructions are at least one code unit apart; an entry of zero width after the first comes from instructions the
+                                          # optimizer removed (3.7-3.9 drop unreachable code after a return and keep its line events): it has a line delta
         if ver39 and l == 0:
             return False
         if not ver39 and l == 0 and b == 0:
@@ -113,12 +114,17 @@ def _c10_programs(tier, seed):
         for l in Ls:
             progs.append([(b, l)])
     two_b, two_l = (B_SET, Ls) if full else (B_SMALL, Lsm)
-    for b1, l1, b2, l2 in itertools.product(two_b + B0, two_l, two_b, two_l):
+    for b1, l1, b2, l2 in itertools.product(two_b + B0, two_l, two_b + B0, two_l):
         progs.append([(b1, l1), (b2, l2)])
+    if not PY310:     # zero-width events right after an entry that sits exactly on a splitting boundary, in both directions
+        for b1, l1, l2 in itertools.product([2, 254, 256], [127, -128, 254, -256, 126, -127, 128, -129], [-5, 5, -128, 127, 1, -1, -200, 200]):
+            progs.append([(b1, l1), (0, l2)])
+            progs.append([(b1, l1), (0, l2), (0, -l2 if l2 != -128 else 3)])
+            progs.append([(2, 1), (b1, l1), (0, l2), (4, 1)])
     n3 = 20000 if full else 1500
     for _ in range(n3):
         n = rnd.choice([3, 3, 4])
-        progs.append([(rnd.choice(B_SET + (B0 if i == 0 else [])), rnd.choice(Ls)) for i in range(n)])
+        progs.append([(rnd.choice(B_SET + (B0 if (i == 0 or rnd.random() < 0.25) else [])), rnd.choice(Ls)) for i in range(n)])
     return [p for p in progs if _legal(p)]
 
 
